@@ -231,3 +231,45 @@ def reversed_in_atom(v) -> bool:
     va, vb = bool(A.evaluate(dict(env2))), bool(B.evaluate(dict(env2)))
     exp = (va and vb) if tree[0] == "and" else (va or vb)
     return bool(R.evaluate(dict(env2))) == exp
+
+
+@predicate
+def one_child_compound(v) -> bool:
+    """F16: union_simplify / intersect_simplify return `AnyMarker & MultiMarker(one)` /
+    `EmptyMarker | MarkerUnion(one)` without normalising, so a conjunction/disjunction with exactly
+    one child escapes.  Explained iff the ONLY defect of the shape is compounds with exactly one
+    child, i.e. unwrapping every such node yields a normal form."""
+    from dep_logic.markers import MarkerUnion, MultiMarker
+
+    from .markermon import nf_defect
+
+    live = v.get("_live") or {}
+    m = live.get("result")
+    if m is None:
+        return False
+    diag = live.get("diag") or {}
+    if not (diag.get("union_simplify") or diag.get("intersect_simplify")):
+        return False  # the un-normalised shape did not come out of the two simplify helpers
+
+    found = [0]
+
+    def unwrap(x):
+        if isinstance(x, (MultiMarker, MarkerUnion)):
+            kids = [unwrap(c) for c in x.markers]
+            if len(kids) == 1:
+                found[0] += 1
+                return kids[0]
+            # rebuild without the flattening constructor touching anything else
+            y = object.__new__(type(x))
+            flat = []
+            for k in kids:
+                if type(k) is type(x):
+                    flat.extend(k.markers)  # a one-child wrapper may have hidden a same-kind child
+                else:
+                    flat.append(k)
+            object.__setattr__(y, "markers", tuple(flat))
+            return y
+        return x
+
+    u = unwrap(m)
+    return found[0] > 0 and nf_defect(u) is None
